@@ -143,6 +143,19 @@ PROPS["C07"] = {
     "level_note": "Trusted: harness/ref. AVG only over NULL-free integer columns, grouping columns always in the select list (the property's domain). The listed AVG finding is recognised by its exact mechanism (value equals the legacy running mean), any other deviation is a violation.",
 }
 
+PROPS["C08"] = {
+    "kind": "harness", "test": "TestC08", "level": "exploration",
+    "tiers": tiers(300, 4, 4000, 16),
+    "rule": "rapid-generated cases: a schema of 1-8 columns in any mix/order of the four types (first column a unique row number), then two phases of single-row operations: INSERT and UPDATE of boundary-biased values "
+            "(INT/BIGINT extremes, 2^53+1, empty strings, NUL/0xFF/invalid UTF-8 bytes, NULLs), rows built to encode to exactly 400 bytes (must be accepted) and 401 bytes (must be refused), wrong-kind values, INT beyond 32 bits; "
+            "each statement as SQL text when the dialect can express it, else as direct statement values. After every statement SELECT * must equal the model bit-for-bit (refused statements: error and unchanged table); "
+            "the comparison is repeated after flush + cache shrink to 6 pages + scan of another table (eviction, reload from disk), after a clean restart, and (phase 2, unflushed) after crash + recovery. "
+            "Non-trivial: a 400-byte boundary row with at least one reload, or a refused value placed in a column that is not the first; distinct by case JSON.",
+    "technique": "property-based round-trip testing (rapid) across four observation points (memory, reloaded page, restart, crash recovery) against a reference model with its own size/validity rules",
+    "level_text": "Random search biased to encoding boundaries; the 400/401 boundary is computed by the model's own size formula, not taken from the code. Search, not proof.",
+    "level_note": "Trusted: model.EncodedSize / ValidateValue (written from the documented row format), exact Go-value comparison. Multi-row failing statements are C14's business and not generated here.",
+}
+
 HOOK_COMMITS = ["7ca683e"]
 
 NOT_APPLICABLE = {}
